@@ -284,6 +284,22 @@ func (e *c12Env) run(c c12Case) (obs, bad string) {
 				}
 			case "OCRAInput.Validate":
 				results = append(results, errStr(keepErr(op, in.Validate(cfg))))
+			case "wasm-derive":
+				// the two exported operations that take the SECRET as a byte slice (the binding's derivation and
+				// validation, built natively): the key bytes are the caller's - the challenge slot of the arena is the
+				// key here (length classes up to 200 bytes: below, at and above the HMAC block sizes)
+				key := in.Challenge
+				for _, al := range []otp.Algorithm{otp.SHA1, otp.SHA256, otp.SHA512} {
+					c1, err := otp.DeriveRFC4226Wasm(key, 7, 6, al)
+					keepErr(op, err)
+					c2, _ := otp.DeriveRFC4226Wasm(key, 7, 6, al)
+					ok, err := otp.ValidateOTPWasm(c1, key, 7, otp.SixDigits, al)
+					keepErr(op, err)
+					results = append(results, fmt.Sprint(c1, c1 == c2, ok))
+					if c1 != c2 || (c1 != "" && !ok) {
+						panic(fmt.Sprintf("VERIF-C12: the binding's derivation gives %q, then %q and verdict %v for the same unchanged key slice", c1, c2, ok))
+					}
+				}
 			case "padBytes":
 				for _, w := range []int{8, 128} {
 					for _, f := range [][]byte{in.Counter, in.Challenge, in.SessionInfo} {
@@ -551,8 +567,8 @@ func c12(r *ev.Run) {
 	if ReplayOnly {
 		return
 	}
-	ops := []string{"GenerateOCRA", "ValidateOCRA", "OCRAInput.Validate", "padBytes", "GenerateHOTP", "ValidateHOTP", "GenerateTOTP", "ValidateTOTP", "GenerateURL+Parse", "ParseURL-variants", "suites", "suites-parsed", "HexInputToOCRA", "returned-slices", "rest-requests"}
-	sliceOps := map[string]bool{"GenerateOCRA": true, "ValidateOCRA": true, "OCRAInput.Validate": true, "padBytes": true}
+	ops := []string{"GenerateOCRA", "ValidateOCRA", "OCRAInput.Validate", "padBytes", "wasm-derive", "GenerateHOTP", "ValidateHOTP", "GenerateTOTP", "ValidateTOTP", "GenerateURL+Parse", "ParseURL-variants", "suites", "suites-parsed", "HexInputToOCRA", "returned-slices", "rest-requests"}
+	sliceOps := map[string]bool{"GenerateOCRA": true, "ValidateOCRA": true, "OCRAInput.Validate": true, "padBytes": true, "wasm-derive": true}
 	var n, trans int64
 	states := map[string]bool{irt.Digest(true): true}
 	runCase := func(c c12Case) {
